@@ -22,6 +22,9 @@
 #include <atomic>
 #include <thread>
 #include <utility>
+#ifdef CELMA_VERIF
+#include "verif_hooks.hpp"
+#endif
 
 
 namespace celma { namespace common {
@@ -89,6 +92,17 @@ public:
 
    // move-assignment is also not allowed
    ManagedThread& operator =( ManagedThread&&) = delete;
+
+#ifdef CELMA_VERIF
+private:
+   /// Verification hook, only compiled with CELMA_VERIF: as a data member it is
+   /// initialised after all base classes, i.e. after std::thread has started
+   /// the thread. The harness of /verif holds the constructor here until the
+   /// thread function runs, which makes an activity flag that is initialised
+   /// later than this point (e.g. a data member declared below) lose the
+   /// thread's \c true deterministically. Keep it in front of such a member.
+   celma_verif::SchedPoint  mVerifAfterStart{ "managed_thread.after_start"};
+#endif
 
 }; // ManagedThread
 
